@@ -72,6 +72,8 @@ type report struct {
 	Types      []regType      `json:"types"`
 	Order      []string       `json:"definition_order"`
 	OutSHA     string         `json:"output_sha256"`
+	Effects    []effect       `json:"receiver_writes"`
+	Analysed   int            `json:"methods_analysed"`
 }
 
 type translator struct {
@@ -142,6 +144,11 @@ func main() {
 		if err := os.MkdirAll(*out, 0o755); err != nil {
 			fatal(err)
 		}
+		eff, analysed, err := t.emitEffects(*out)
+		if err != nil {
+			fatal(err)
+		}
+		t.rep.Effects, t.rep.Analysed = eff, analysed
 		p := filepath.Join(*out, "All.v")
 		old, _ := os.ReadFile(p)
 		if !bytes.Equal(old, []byte(text)) { // keep mtime when unchanged so that make is a no-op
